@@ -238,8 +238,8 @@ def grow_pt_step(cfg, n=None, prefix='P'):
         n = n or 260   # 8 + 8 bytes each + root
         namelen = 8
     else:
-        n = n or 20    # 8 + 207 (+pad)
-        namelen = 207
+        n = n or (20 if not cfg.get('rr') else 24)    # 8 + 207 (+pad)
+        namelen = 207 if not cfg.get('rr') else 176
     for i in range(n):
         iso = ('%s%03d' % (prefix, i)).ljust(namelen, 'Q')
         kw = {'iso_path': '/' + iso}
@@ -484,6 +484,8 @@ def chain_files(cfg, n, isolen, dkey='/', rrlen=4, jlen=4, ulen=4, order='lifo',
     lvl = cfg.get('level', 1)
     d = DIRS[dkey]
     adds, rms = [], []
+    if cfg.get('rr'):
+        isolen = min(isolen, 176)     # a Rock Ridge record must keep room for its CE entry
     for i in range(n):
         stem = ('%s%04d' % (prefix, i))
         if lvl == 1:
@@ -517,6 +519,8 @@ def chain_files(cfg, n, isolen, dkey='/', rrlen=4, jlen=4, ulen=4, order='lifo',
 def chain_dirs(cfg, n, isolen, order='lifo', prefix='P', jlen=4, ulen=4):
     lvl = cfg.get('level', 1)
     adds, rms = [], []
+    if cfg.get('rr'):
+        isolen = min(isolen, 176)
     for i in range(n):
         stem = '%s%04d' % (prefix, i)
         iso = stem[:8] if lvl == 1 else stem.ljust(isolen, 'Q')
@@ -557,6 +561,19 @@ def chains_for(cfg, tier):
         ch = chain_files(cfg, 48, 11, ulen=8, prefix='V')
         ch[0][1]['udf_path'] = '/a'
         out.append(('udf-align', ch))
+    if cfg.get('rr') and lvl < 4:
+        # several depth-8 directories with the same ISO9660 name in different parents: all are relocated into one directory
+        ch = deep_chain_step(cfg, 6, with_file=False)
+        p6 = ch[-1][1]
+        for g in ('G', 'H', 'I', 'J'):
+            for tail, rrn in (('/' + g, g.lower()), ('/' + g + '/1', 'one')):
+                kw = {'iso_path': p6['iso_path'] + tail, 'rr_name': rrn}
+                if cfg.get('joliet'):
+                    kw['joliet_path'] = p6['joliet_path'] + tail.lower()
+                if cfg.get('udf'):
+                    kw['udf_path'] = p6['udf_path'] + tail.lower()
+                ch.append(['add_directory', kw])
+        out.append(('reloc-collide', ch))
     out.append(('files-shuffle', chain_shuffle(cfg, 70 if big else 56)))
     dd = chain_dirs(cfg, (300 if lvl == 1 else 24) if big else (24 if lvl > 1 else 40), 207 if lvl > 1 else 8, jlen=64, ulen=40, prefix='Q')
     if lvl > 1 or big:
